@@ -76,6 +76,15 @@ CLAIMED.update({
          "child-process supervisor; 'still works' probe evaluated in the harness; TLC", "5 C19"),
 })
 
+CLAIMED.update({
+ "C02": (MC, "TLC: MC_Interop composes ClientSession.tla and ServerSession.tla over two FIFO message channels with an accepting application (safety + liveness under weak fairness) + Trace_Interop judges item-level logs of two real sessions wired back to back under byte-level schedules",
+         "Design level: the two session specifications are checked against each other (each one's outbound observations are the other's inbound messages): the workflow completes, items arrive exactly once in order under the requested app/key, stop raises finished. Code level: real x real under fragmentation/interleaving/configuration/uptime classes with a FIFO exactly-once oracle comparing payloads, timestamps and every metadata field by value.",
+         "TLC; scheduler delivers bytes in order per direction; the message-level model has no bytes (C15 is the lemma for fragmentation)", "5 C02"),
+ "C15": (MC, "TLC: MC_Staged (staged parser reaches the one-shot state under every partition; negative control) + Trace_Chunk accepting both partitions of each valid stream + Trace_Pair relational check of two partitions for mutated/invalid streams on deserializer and both sessions",
+         "For valid streams two accepted logs of the same stream necessarily agree (the oracle assigns outputs to stream offsets); for streams without reference meaning the relation between the two runs is the property and is evaluated in TLA+.",
+         "TLC; clock hook; acknowledgements projected away for sessions", "5 C15"),
+})
+
 NOT_YET = {}
 
 def main():
